@@ -23,7 +23,7 @@ var propRules = map[string][]string{
 	"C19": {"C19.R1", "C19.R2", "C19.R3", "C19.R4", "C19.R5", "C19.R6", "C02.R6", "C09.R3", "C17.R8", "C19.R7", "C10.R7", "C19.R8", "C19.R9", "C05.R5", "C19.R10", "C06.R7", "C19.R11"},
 	"C15": {"C15.R1", "C15.R2", "C15.R3", "C15.R4", "C15.R5", "C15.R6", "C14.R2", "C16.R4", "C15.R7", "C14.R6", "C15.R8", "C16.R8", "C01.R13", "C15.R9"},
 	"C07": {"C07.R1", "C07.R2", "C07.R3", "C07.R4", "C02.R1", "C05.R3", "C06.R2", "C20.R10"},
-	"C08": {"C08.R1", "C08.R2", "C08.R3", "C08.R4", "C10.R2"},
+	"C08": {"C08.R1", "C08.R2", "C08.R3", "C08.R4", "C10.R2", "C10.R8"},
 	"C09": {"C09.R1", "C09.R2", "C09.R3", "C09.R4", "C01.R8"},
 	"C10": {"C10.R1", "C10.R2", "C10.R3", "C10.R4", "C10.R5", "C01.R9", "C10.R6", "C10.R7", "C10.R8", "C10.R9", "C10.R10", "C13.R3", "C10.R11", "C10.R12", "C05.R5", "C09.R2"},
 	"C12": {"C12.R1", "C12.R2", "C12.R3", "C12.R4", "C12.R5", "C12.R6"},
